@@ -39,7 +39,7 @@ def make_req(group, ident, issuances, with_git, port=None, defaulted=(), key_typ
         "account": [{"name": "acc0", "contacts": [{"mailto": "a@example.org"}], "hooks": ["git"] if with_git else []}],
         "certificate": [{"endpoint": "ep0", "account": "acc0", "identifiers": [{"dns": ident, "challenge": challenge}], "key_type": key_type, "hooks": cert_hooks}],
     }
-    validate = {"http_root": "@DIR@/www", "retry_ms": 3000}
+    validate = {"http_root": "@DIR@/www", "retry_ms": 10000}
     if group.endswith("unix"):
         validate["tls"] = {"mode": "unix", "sock_root": "@DIR@/run-sock"}
     else:
@@ -172,7 +172,7 @@ def run(ctx):
     res.extra["histories"] = len(reqs)
     res.assumptions = ["HTTP_ROOT, TACD_PID_ROOT and TACD_SOCK_ROOT are always set to three different scratch directories (their defaults /var/www and /run are system directories); TACD_HOST and TACD_PORT are also exercised defaulted",
                        "the CA 'resolves' every identifier to 127.0.0.1; the defaulted TACD_HOST case uses the identifier localhost",
-                       "tacd daemonises before it binds: the CA retries the handshake for 3 s"]
+                       "tacd daemonises before it binds: the CA retries the handshake for up to 10 s"]
     return res
 
 
